@@ -1015,7 +1015,7 @@ def run_fontwidth(ctx: C.Ctx) -> None:
                                "a font", exc_line(e), {"group": "fontwidth", "exc": type(e).__name__}))
             continue
         sw = spec_widths2(ents) if vertical else spec_widths(ents)
-        cids = [en[1] for en in ents] + [en[1] + 1 for en in ents] + [0, rng.randint(0, 400)]
+        cids = [c for c in [en[1] for en in ents] + [en[1] + 1 for en in ents] if c >= 0] + [0, rng.randint(0, 400)]
         for cid in cids[:6]:
             got = font.char_width(cid) * 1000
             if vertical:
